@@ -189,6 +189,16 @@ impl H3Client {
         self.conn.is_closed()
     }
 
+    /// the peer closed the connection (CONNECTION_CLOSE received), or it is over for another reason
+    pub fn is_shut(&self) -> bool {
+        self.conn.is_closed() || self.conn.is_draining() || self.conn.peer_error().is_some()
+    }
+
+    /// (is an application close, error code, reason) of the peer's CONNECTION_CLOSE
+    pub fn peer_close(&self) -> Option<(bool, u64, Vec<u8>)> {
+        self.conn.peer_error().map(|e| (e.is_app, e.error_code, e.reason.clone()))
+    }
+
     /// headers as (name, value) pairs, pseudo-headers first; returns the stream id
     pub fn request(&mut self, headers: &[(Vec<u8>, Vec<u8>)], fin: bool) -> Option<u64> {
         let list: Vec<quiche::h3::Header> = headers.iter().map(|(n, v)| quiche::h3::Header::new(n, v)).collect();
@@ -275,4 +285,54 @@ impl H3Client {
         let _ = self.conn.close(true, 0x100, b"done");
         flush(&self.socket, &mut self.conn);
     }
+}
+
+// ------------------------------------------------------------------------------------------------ wire tap
+
+/// A TCP stream that remembers the first bytes written to it (the ClientHello)
+pub struct Tap {
+    io: TcpStream,
+    pub wire: Arc<Mutex<Vec<u8>>>,
+}
+
+impl tokio::io::AsyncRead for Tap {
+    fn poll_read(mut self: std::pin::Pin<&mut Self>, cx: &mut std::task::Context<'_>, buf: &mut tokio::io::ReadBuf<'_>) -> std::task::Poll<std::io::Result<()>> {
+        std::pin::Pin::new(&mut self.io).poll_read(cx, buf)
+    }
+}
+
+impl tokio::io::AsyncWrite for Tap {
+    fn poll_write(mut self: std::pin::Pin<&mut Self>, cx: &mut std::task::Context<'_>, data: &[u8]) -> std::task::Poll<std::io::Result<usize>> {
+        let r = std::pin::Pin::new(&mut self.io).poll_write(cx, data);
+        if let std::task::Poll::Ready(Ok(n)) = &r {
+            let mut w = self.wire.lock().unwrap();
+            if w.len() < 1024 {
+                w.extend_from_slice(&data[..*n]);
+            }
+        }
+        r
+    }
+    fn poll_flush(mut self: std::pin::Pin<&mut Self>, cx: &mut std::task::Context<'_>) -> std::task::Poll<std::io::Result<()>> {
+        std::pin::Pin::new(&mut self.io).poll_flush(cx)
+    }
+    fn poll_shutdown(mut self: std::pin::Pin<&mut Self>, cx: &mut std::task::Context<'_>) -> std::task::Poll<std::io::Result<()>> {
+        std::pin::Pin::new(&mut self.io).poll_shutdown(cx)
+    }
+}
+
+/// TLS client connection that also yields what was written to the socket first
+pub async fn tls_connect_tap(addr: SocketAddr, server_name: &str, alpn: &[&[u8]]) -> (Option<tokio_rustls::client::TlsStream<Tap>>, Arc<Mutex<Vec<u8>>>) {
+    let wire = Arc::new(Mutex::new(vec![]));
+    let mut cfg = rustls::ClientConfig::builder()
+        .with_safe_defaults()
+        .with_custom_certificate_verifier(Arc::new(NoVerify))
+        .with_no_client_auth();
+    cfg.alpn_protocols = alpn.iter().map(|x| x.to_vec()).collect();
+    let connector = tokio_rustls::TlsConnector::from(Arc::new(cfg));
+    let Ok(name) = rustls::ServerName::try_from(server_name) else { return (None, wire) };
+    let Ok(tcp) = TcpStream::connect(addr).await else { return (None, wire) };
+    let _ = tcp.set_nodelay(true);
+    let tap = Tap { io: tcp, wire: wire.clone() };
+    let tls = tokio::time::timeout(Duration::from_secs(5), connector.connect(name, tap)).await.ok().and_then(|r| r.ok());
+    (tls, wire)
 }
